@@ -202,3 +202,15 @@ def check(case, acc):
         if o != exp:
             acc.fail("sliding-window-wrong", (w, exp), o)
             break
+        if w in (1, 2, p - 1, p) or w * b in (32, 48, 56):
+            # the window size as numpy integers (what len(), shape entries and arithmetic on them hand over)
+            bad = False
+            for sp in (np.int64, np.int32):
+                o2 = attempt(lambda: [int(x) for x in pk().sliding_window(sp(w))])
+                acc.trans()
+                if o2 != exp:
+                    acc.fail("sliding-window-wrong", (f"{sp.__name__}({w})", exp), o2)
+                    bad = True
+                    break
+            if bad:
+                break
